@@ -27,6 +27,35 @@ import (
 type c07Case struct {
 	Mode   string `json:"mode"` // object | array
 	Schema *jv.V  `json:"schema"`
+	// Long: (array mode) also evaluate a few arrays of 63-130 items, whose interesting positions are
+	// the last one and the word boundaries 63/64/65
+	Long bool `json:"long,omitempty"`
+}
+
+// c07LongArrays: mostly "x", with 1 at the given positions.
+func c07LongArrays() []*jv.V {
+	var out []*jv.V
+	mk := func(l int, ones ...int) {
+		a := &jv.V{K: jv.Arr, A: make([]*jv.V, l)}
+		for i := range a.A {
+			a.A[i] = c07Items[1].Clone()
+		}
+		for _, i := range ones {
+			if i < l {
+				a.A[i] = c07Items[0].Clone()
+			}
+		}
+		out = append(out, a)
+	}
+	mk(64, 63)
+	mk(65, 64)
+	mk(65, 63)
+	mk(66, 64, 65)
+	mk(66, 0)
+	mk(130, 64, 128)
+	mk(130, 129)
+	mk(65)
+	return out
 }
 
 var (
@@ -80,6 +109,10 @@ func (g *c07gen) leafSub() *jv.V {
 		return jv.BoolV(false)
 	case 2:
 		return jv.ObjV(jv.Member{K: "type", V: jv.StrV("string")})
+	case 3:
+		return jv.ObjV() // the empty schema: true in another shape
+	case 4:
+		return jv.ObjV(jv.Member{K: "title", V: jv.StrV("t")}) // true again, but not structurally empty
 	}
 	return jv.BoolV(true)
 }
@@ -133,6 +166,10 @@ func (g *c07gen) node(depth int, allowRef bool) *jv.V {
 		}
 		if g.n(4, "contains") == 0 {
 			s.Set("contains", jv.ObjV(jv.Member{K: "const", V: c07Items[g.n(2, "cv")].Clone()}))
+			if g.n(3, "containsany") == 0 {
+				// a contains that every item (or none) matches, in each of its shapes
+				s.Set("contains", g.leafSub())
+			}
 			if g.n(3, "minc") == 0 {
 				s.Set("minContains", jv.NumV(fmt.Sprint(g.n(3, "mincv"))))
 			}
@@ -252,6 +289,9 @@ func modelVerdicts(schema *jv.V, insts []*jv.V, variant int) ([]bool, error) {
 
 func checkC07(c *c07Case, rec *ev.Recorder) *failure {
 	insts := c07Instances(c.Mode)
+	if c.Long && c.Mode == "array" {
+		insts = append(insts, c07LongArrays()...)
+	}
 	want, err := modelVerdicts(c.Schema, insts, refmodel.VariantSpec)
 	if err != nil {
 		return failf("HARNESS: model: %v\n%s", err, c.Schema.JSON())
@@ -309,6 +349,8 @@ func TestC07(t *testing.T) {
 func propC07(rec *ev.Recorder) func(t *rapid.T) {
 	return func(t *rapid.T) {
 		c := genC07(t)
+		c.Long = c.Mode == "array" && rapid.IntRange(0, 5).Draw(t, "longarrays") == 0
+		rec.ClassIf(c.Long, "instances:long-arrays")
 		rec.Class("mode:" + c.Mode)
 		fl := checkC07(c, rec)
 		if isHarnessFailure(fl) {
